@@ -95,6 +95,116 @@ func checkC18(p *core.Program, r *core.Report) {
 	if len(det)+len(syn) < 4 {
 		r.Fail(R1, "notification sites", "", fmt.Sprintf("expected at least 4 notification sites, found %d", len(det)+len(syn)))
 	}
+	// ---- R4: what keeps detached notifications in order in practice
+	const R4 = "C18.R4 detached-notifications-uniform"
+	r.Rule(R4, "a notification issued from a per-change goroutine waits one compile-time constant delay, the same at every such site, and is delivered on every path of the goroutine unless the skipping condition is computed from that SKI's own record: a shorter delay for some states delivers them before the states entered earlier; a hub-wide skip condition drops the final notification of one SKI when another SKI changes")
+	var delays []string
+	for _, s := range det {
+		body := s.Fn
+		outer := p.FnName(core.Outermost(s.Fn))
+		c := core.Common(s.In)
+		var skiVal ssa.Value
+		if c != nil && len(c.Args) > 0 {
+			skiVal = core.Canon(c.Args[0])
+		}
+		// (a) delays
+		key := "delay of the detached notification in " + outer
+		nd, bad := 0, ""
+		core.EachInstr(body, func(in ssa.Instruction) {
+			cc := core.Common(in)
+			if cc == nil {
+				return
+			}
+			switch core.CalleeName(cc) {
+			case "time.After", "time.Sleep", "time.NewTimer", "time.Tick":
+				nd++
+				if k := core.ConstOf(core.Canon(cc.Args[0])); k != nil {
+					delays = append(delays, k.ExactString())
+				} else {
+					bad = "the delay before the notification is not a constant (it depends on the state being reported): a state with a shorter delay is delivered before states entered earlier, so an older state arrives after a newer one"
+				}
+			}
+		})
+		switch {
+		case bad != "":
+			r.Fail(R4, key, p.Pos(s.In.Pos()), bad)
+		default:
+			r.OK(R4, key, p.Pos(s.In.Pos()), fmt.Sprintf("%d constant delay(s)", nd))
+		}
+		// (b) delivery on every path
+		key = "delivery of the detached notification in " + outer
+		isNotify := func(y ssa.Instruction) bool { return core.IsInvokeOf(y, mUpd) }
+		if core.PathSearch(body, nil, core.IsReturn, isNotify, nil) == nil {
+			r.OK(R4, key, p.Pos(s.In.Pos()), "every path of the goroutine delivers the notification")
+			continue
+		}
+		var perSKI func(v ssa.Value, depth int) bool
+		perSKI = func(v ssa.Value, depth int) bool {
+			v = core.Canon(v)
+			if depth == 0 {
+				return false
+			}
+			if core.ConstOf(v) != nil || (skiVal != nil && v == skiVal) {
+				return true
+			}
+			switch x := v.(type) {
+			case *ssa.BinOp:
+				return perSKI(x.X, depth-1) && perSKI(x.Y, depth-1)
+			case *ssa.UnOp:
+				if x.Op == token.NOT {
+					return perSKI(x.X, depth-1)
+				}
+				return false
+			case *ssa.Lookup:
+				return skiVal != nil && core.Canon(x.Index) == skiVal
+			case *ssa.Extract:
+				return perSKI(x.Tuple, depth-1)
+			case *ssa.Phi:
+				for _, e := range x.Edges {
+					if !perSKI(e, depth-1) {
+						return false
+					}
+				}
+				return true
+			case *ssa.Call:
+				if len(x.Call.Args) > 0 && storedService(p, x.Call.Args[0], 4) {
+					return true
+				}
+				if x.Call.IsInvoke() {
+					return perSKI(x.Call.Value, depth-1)
+				}
+				for _, a := range x.Call.Args {
+					if skiVal != nil && core.Canon(a) == skiVal {
+						return true
+					}
+				}
+				if len(x.Call.Args) > 0 && x.Call.StaticCallee() != nil && x.Call.StaticCallee().Signature.Recv() != nil {
+					return perSKI(x.Call.Args[0], depth-1) && !isHubValue(p, x.Call.Args[0])
+				}
+				return false
+			}
+			return false
+		}
+		why := ""
+		for _, b := range body.Blocks {
+			if i := core.BlockIf(b); i != nil {
+				v, _ := core.Truth(i.Cond, 0)
+				if !perSKI(v, 8) {
+					why = "a path of the goroutine returns without notifying, decided by a condition that is not computed from this SKI's own record (" + v.String() + "): a change of another SKI suppresses this SKI's final notification"
+				}
+			}
+		}
+		if why == "" {
+			r.OK(R4, key, p.Pos(s.In.Pos()), "skipped only on a condition of this SKI's own record")
+		} else {
+			r.Fail(R4, key, p.Pos(s.In.Pos()), why)
+		}
+	}
+	for i := 1; i < len(delays); i++ {
+		if delays[i] != delays[0] {
+			r.Fail(R4, "detached notifications share one delay", "", "per-change goroutines of different sites wait different constant delays: notifications of one SKI are reordered")
+		}
+	}
 	// ---- R2
 	stored := func(v ssa.Value, site core.Site) (bool, string) {
 		v = core.Canon(v)
@@ -227,4 +337,18 @@ func checkC18(p *core.Program, r *core.Report) {
 		}
 	}
 	_ = types.Typ
+}
+
+
+// isHubValue: v is (a pointer to) the Hub itself or one of its fields - hub-wide, not per-SKI state.
+func isHubValue(p *core.Program, v ssa.Value) bool {
+	hub := p.Named("hub", "Hub")
+	v = core.Canon(v)
+	if fa, ok := v.(*ssa.FieldAddr); ok {
+		return core.NamedOf(fa.X.Type()) == hub
+	}
+	if f, b := core.LoadedField(v); f != nil && core.NamedOf(b.Type()) == hub {
+		return true
+	}
+	return core.NamedOf(v.Type()) == hub
 }
